@@ -54,6 +54,13 @@ def equiv : List (String × List String) → List (String × List String) → Bo
   | (n, r) :: as, (m, q) :: bs => n == m && sameScopes (scopes r) (scopes q) && equiv as bs
   | _, _ => false
 
+/-- every row of `exp` has an equivalent row of the same name in `gen`; rows of `gen` that `exp` does not know (a new
+    exported function) are not compared: the models describe the API they were written against -/
+def covers (gen exp : List (String × List String)) : Bool :=
+  exp.all fun (n, r) => match gen.lookup n with
+    | some q => sameScopes (scopes q) (scopes r)
+    | none => false
+
 theorem sameSet_refl (a : List String) : sameSet a a = true := by
   simp [sameSet]
 
@@ -107,6 +114,9 @@ theorem equiv_trans : ∀ s t u : List (String × List String), equiv s t = true
   | (n, r) :: as, (m, q) :: bs, (k, p) :: cs, h1, h2 => by
     simp only [equiv, Bool.and_eq_true, beq_iff_eq] at *
     exact ⟨⟨h1.1.1.trans h2.1.1, sameScopes_trans _ _ _ h1.1.2 h2.1.2⟩, equiv_trans as bs cs h1.2 h2.2⟩
+
+example : covers [("f", ["a", "b"]), ("new", ["x"])] [("f", ["b", "a"])] = true := by decide
+example : covers [("g", ["a"])] [("f", ["a"])] = false := by decide
 
 -- branch merging and reordering inside a scope keep a row equivalent; dropping an operation does not
 example : equiv [("f", ["a", "x", "b", "x", "fn{", "c", "}"])] [("f", ["b", "a", "x", "fn{", "c", "}"])] = true := by decide
